@@ -26,6 +26,10 @@ def generate_source_code(docstring, parsed):
         defined.update(x.name for x in ancestor.body if getattr(x, 'name', None))
         ancestor = ancestor.extends
 
+    # So do the parameters of its rules and classes (a parameter can be called).
+    for stmt in parsed.body:
+        defined.update(getattr(stmt, 'params', None) or ())
+
     # Convert the parse tree into a list of parsing expressions.
     nodes = parser.transform(
         parsed.body,
